@@ -406,7 +406,8 @@ func hostilePaths(r *rand.Rand, v any) []any {
 		out = append(out, p)
 	}
 	keys := []any{"a", "b", "zz", 0, 1, -1, -5, 7, 1.5, nil, true, map[string]any{"start": 1, "end": nil}, map[string]any{"start": nil, "end": 1}, map[string]any{"start": -1, "end": 5},
-		map[string]any{"start": 0.5, "end": 1.5}, map[string]any{"start": 2, "end": 1}, map[string]any{"start": 1}, map[string]any{}, []any{0}, "", 100, map[string]any{"start": "a", "end": 1}}
+		map[string]any{"start": 0.5, "end": 1.5}, map[string]any{"start": 2, "end": 1}, map[string]any{"start": 1}, map[string]any{}, []any{0}, "", 100, map[string]any{"start": "a", "end": 1},
+		map[string]any{"start": -1.5, "end": nil}, map[string]any{"start": 0.5, "end": -0.5}, map[string]any{"start": -2.5, "end": -0.5}, map[string]any{"start": nil, "end": -1.5}}
 	for i := 0; i < 12; i++ {
 		n := r.IntN(4)
 		p := make([]any, n)
